@@ -313,7 +313,9 @@ namespace via
       comms::ConstBuffers buffers(1, ASIO::buffer(tx_header_));
 
       // Don't send a body in response to a HEAD request
-      if (!rx_.is_head())
+      // or with a response that may not contain one, e.g. 204 or 304
+      if (!rx_.is_head() &&
+          http::response_status::content_permitted(response.status()))
       {
         tx_body_.swap(body);
         buffers.push_back(ASIO::buffer(tx_body_));
@@ -337,7 +339,9 @@ namespace via
       size_t size(ASIO::buffer_size(buffers));
 
       // Don't send a body in response to a HEAD request
-      if (rx_.is_head())
+      // or with a response that may not contain one, e.g. 204 or 304
+      if (rx_.is_head() ||
+          !http::response_status::content_permitted(response.status()))
         buffers.clear();
 
       set_version(response);
